@@ -77,7 +77,7 @@ CLAIMED["C05"] = dict(
           "touches that family's tables/accessors/constructors (this rule found the named-tuple memo bug, repaired by a fix: "
           "commit); co-inductive memo typestate of both emptiness entry points (lookup first, Undefined read as IsEmpty, "
           "in-progress mark dominates the recursive computation, same key updated afterwards); polarity of the BDD path walk "
-          "and the conjunction table of and_empty_status (truth table)."),
+          "and the conjunction table of and_empty_status (truth table). Added later: in the recursive emptiness procedures no owned scratch value defined before a loop is written in the loop and handed to the recursive call without being re-created or restored per iteration (C05.6, with canary controls)."),
     note=("Trusted: rustc typed HIR/MIR, the family naming scheme. Not decided: the emptiness procedures themselves "
           "(Frisch's Phi' on lists, exact-vs-open mapping difference, index signatures) - value-level correctness of all "
           "atom tables has no sound static argument in reach; relies on C06 for the set operations."),
@@ -107,7 +107,7 @@ CLAIMED["C08"] = dict(
           "in ordered sets/maps (member and property order unobservable); every arm of the Printable*Key converters binds and "
           "uses every field of its variant and targets the same-named key variant (hoisting cannot merge types that differ); "
           "no hash()/hash256() of the runtime family reads metadata or feeds a type name to the writer, and every key iteration "
-          "in them is over a sorted copy."),
+          "in them is over a sorted copy. Added later: all_of merges on equal stored values only (C08.5); binary merge/selection functions over set-ordered members return a payload that reaches both operands or neither (C08.6); digest-context tables are not keyed by names (C08.4/C13.4)."),
     note=("Trusted: rustc MIR/HIR/ADT facts, swc AST. Not decided: equality of behaviour across spellings (which optimisation "
           "fires for which shape) - a relational, value-level statement."),
     design="DESIGN.md section 3, C08",
@@ -136,7 +136,7 @@ CLAIMED["C13"] = dict(
           "ch/maj have their truth tables; schedule recurrence, T1/T2, state rotation, feed-forward, padding byte, threshold "
           "(> 56), big-endian length field and word load. Per class: every structural constructor field is read by hash256(), "
           "tags are pairwise distinct, every collection loop is length-prefixed, optional parts are tagged on both branches, "
-          "no digest reads metadata/names or iterates unsorted keys, cycle bookkeeping is paired."),
+          "no digest reads metadata/names or iterates unsorted keys, cycle bookkeeping is paired. Added later: module constants are resolved before the arithmetic is compared; the in-progress table of the digest context is keyed by the referenced validator, never by a name (cycle-table-key)."),
     note=("Trusted: swc AST; the re-derivation of FIPS 180-4 in rules/c13.py; the 4-entry derived-field table. Not decided: "
           "collision-freedom beyond coverage+framing, buffer arithmetic across block boundaries (boundary-value behaviour), "
           "TextEncoder."),
@@ -151,7 +151,7 @@ CLAIMED["C16"] = dict(
           "markDefinitionInProgress(n) is followed by storeDefinition(n) inside a try whose catch/finally clears the mark "
           "(roles of mark/store/clear are derived from the context class); store sites sit under the not-present-and-not-in-"
           "progress guard for the same name; the definition table has exactly one writer; exportDefinitions copies; the "
-          "stored body is <target>.schema(ctx). The rule found the leaked mark on exceptions (repaired by a fix: commit)."),
+          "stored body is <target>.schema(ctx). The rule found the leaked mark on exceptions (repaired by a fix: commit). Added later: schema printing writes no instance state (C16.4); methods of the context that hand out a stored definition body are not reachable from schema() (C16.5)."),
     note=("Trusted: swc AST. Not decided: equality with a fresh context for synthetic discriminated-variant names (they embed "
           "a 32-bit hash: collisions are value-level); JS exceptions other than those raised by calls."),
     design="DESIGN.md section 3, C16",
@@ -165,7 +165,7 @@ CLAIMED["C02"] = dict(
           "every key of every schema object literal is a Draft 2020-12 keyword (plus discriminator) and every literal or "
           "field-typed `type` lies in the seven JSON Schema type names; prefixItems comes with minItems and pattern is a RegExp "
           "source (both were violated and repaired by fix: commits); every getRef(n) is preceded by the ensure-definition "
-          "sequence for n."),
+          "sequence for n. Added later: index-signature schemas keep both key and value constraint (C02.5); the allOf merge takes every member's whole `required` list (C02.6)."),
     note=("Trusted: swc AST, the keyword list. Not decided: agreement on documents (required vs optional through "
           "removeNullUnionBranch, allOf merge, index signatures) - value-level over all documents."),
     design="DESIGN.md section 3, C02",
@@ -181,7 +181,7 @@ CLAIMED["C03"] = dict(
           "in any validate / parseAfterValidation / reportDecodeError or in the error helpers; explicit throws are the three "
           "reviewed post-validation ones; no assignment/delete/mutator call is rooted at an input-derived object; the two "
           "objectKeyOrder branches use the same membership test. The rules found three defect families (10 sites), all "
-          "repaired by fix: commits."),
+          "repaired by fix: commits. Added later: results of a child's parseAfterValidation count as input-derived (opaque leaves and `any` hand the input back) and Object.assign/defineProperty/freeze count as writes to their first argument."),
     note=("Trusted: swc AST, declared Record<..> annotations, the taint model (no inter-procedural flow beyond the listed "
           "helpers). Not decided: re-validation / idempotence of parsed output, leaf preservation through deepmerge."),
     design="DESIGN.md section 3, C03",
@@ -193,7 +193,7 @@ CLAIMED["C11"] = dict(
           "pass the method's own ctx identifier; contexts are built only by the facade; the flag is read only by the object "
           "class, in its no-index-signature branch, comparing Object.keys(input) with its own declared keys; a class that "
           "requires all of several children on the same input while forwarding the flag unchanged is reported (1 known "
-          "finding: intersections of named object types reject everything in strict mode)."),
+          "finding: intersections of named object types reject everything in strict mode). Added later: helpers that forward the ctx are checked at their call sites (fixpoint); the printer never drops the index signature of an object shape it rebuilds (C11.4 = C01.7)."),
     note="Trusted: swc AST. Not decided: the equivalence `strict accepts <=> default accepts and no undeclared key` itself.",
     design="DESIGN.md section 3, C11",
 )
@@ -219,7 +219,7 @@ CLAIMED["C01"] = dict(
           "constructor's arity and literal arguments inside the declared literal unions (1 known finding: "
           "TypeofRuntype(\"function\")); template-literal regexes are matched against the whole string (was violated; "
           "fixed); escape_regex covers all 15 syntax characters, backslash first; all 22 concrete runtime classes implement "
-          "all 8 interface methods; typed-array names agree with the 11 ECMAScript globals on both sides."),
+          "all 8 interface methods; typed-array names agree with the 11 ECMAScript globals on both sides. Added later: the intersection smart constructor merges object members only when the stored values are equal (C01.6); the printer never takes a struct-like IR variant apart while ignoring one of its fields, e.g. the index signature of an object shape (C01.7)."),
     note=("Trusted: rustc typed HIR, swc AST. The behavioural core of C01 (the validator accepts exactly the members of the "
           "type, for all programs and values) has no sound static argument in reach and is not decided."),
     design="DESIGN.md section 3, C01",
